@@ -13,7 +13,7 @@ switches, path jumps, evaluate_function). The harness binary installs a counting
 and blocks per thread). Relation A: after two warm-up cycles, live bytes before a create -> play -> drop cycle \
 equal live bytes after it, for 4 (quick) / 12 (thorough) further cycles, exactly. Relation B: on one instance, \
 repeated (reset_state + replay) rounds and repeated load_state of the same save keep live bytes at the level \
-of the first repetition (no growth per round). Non-trivial = program whose play executed at least one divert \
+of the first repetition (no growth per round). Relation C: on the same instance, rounds of switch_flow(new name) -> remove_flow (once removed while current, once after switching back) do not grow it. Non-trivial = program whose play executed at least one divert \
 more than once or a sequence/conditional (cached divert targets, the classic cycle), or used lists; distinct \
 = hash(program, history).";
 
@@ -113,6 +113,40 @@ pub fn exec(case: &J, acc: &mut Acc) -> Result<(), Fail> {
                         Some(l) => {
                             if now > l {
                                 return Ok(Some(("load_state".into(), k, now - l)));
+                            }
+                        }
+                    }
+                }
+            }
+        }
+        // Relation C: opening, playing and removing a named flow (a new name every round, the
+        // flow removed while it is the current one, or after switching back to the default
+        // flow) must not grow the instance either
+        for remove_while_current in [true, false] {
+            let _ = h.story.reset_state();
+            let mut level: Option<isize> = None;
+            for k in 0..(rounds + 3) {
+                let name = format!("churn{}{}", remove_while_current as u8, k);
+                h.story.verif_set_fuel(Some(cfg.fuel));
+                if h.story.switch_flow(&name).is_err() {
+                    break;
+                }
+                // (nothing is played inside the flow: visit counts and sequence positions are
+                // shared state that legitimately grows with play; the rounds must leave it alone)
+                if !remove_while_current {
+                    h.story.switch_to_default_flow();
+                }
+                let _ = h.story.remove_flow(&name);
+                drop(name);
+                h.log.borrow_mut().clear();
+                let now = live().0;
+                if k >= 3 {
+                    match level {
+                        None => level = Some(now),
+                        Some(l) => {
+                            if now > l {
+                                let what = if remove_while_current { "switch_flow + remove_flow (removed while current)" } else { "switch_flow + remove_flow (removed after switching back)" };
+                                return Ok(Some((what.into(), k, now - l)));
                             }
                         }
                     }
